@@ -789,6 +789,35 @@ func checkUnwindCoversStep(c *Ctx, rule string) {
 			destDel = ci
 		}
 	}
+	// the remaining position read by a helper that other functions use too (Task.position for latest and
+	// Delete): the statement is the helper's, the place in Delete is the call of the helper
+	var remSite ssa.Instruction
+	var remHandle ssa.Value
+	if remaining == nil {
+		for _, ci := range reg.Calls() {
+			call, isCall := ci.(*ssa.Call)
+			h := staticCallee(ci)
+			if !isCall || h == nil || reg.Has(h) || !isRepoFunc(h) || h.Blocks == nil {
+				continue
+			}
+			for i := range sites {
+				s2 := &sites[i]
+				if s2.Fn != h || s2.Stmt == nil {
+					continue
+				}
+				for _, b := range s2.Stmt.Blocks {
+					if b.Rel == "shovel.task_updates" && b.Verb == "select" && s2.Stmt.ReadOnly {
+						remaining, remSite = s2, call
+						if p, isP := stripConv(s2.Recv).(*ssa.Parameter); isP && p.Parent() == h {
+							if k := paramIndexOf(p); k < len(call.Call.Args) {
+								remHandle = call.Call.Args[k]
+							}
+						}
+					}
+				}
+			}
+		}
+	}
 	if cursorDelete == nil || destDel == nil {
 		c.Violation(rule, "(*Task).Delete/shape", del.Pos(), "cursor delete or Destination.Delete call not found")
 		return
@@ -858,6 +887,30 @@ func checkUnwindCoversStep(c *Ctx, rule string) {
 						}
 					}
 				}
+				if !hit {
+					// a member of the position value a helper handed out: what that member can be
+					if ml, ok := memberLeaves(reg, pv); ok {
+						allGood := len(ml) > 0
+						for _, m := range ml {
+							if _, isK := m.(*ssa.Const); isK {
+								continue
+							}
+							mu, isMU := m.(*ssa.UnOp)
+							isCell := false
+							if isMU {
+								for _, cell := range cells {
+									if stripConv(cell) == mu.X {
+										isCell = true
+									}
+								}
+							}
+							if !isCell {
+								allGood = false
+							}
+						}
+						hit = allGood
+					}
+				}
 				if hit {
 					nLoad++
 				} else {
@@ -876,7 +929,12 @@ func checkUnwindCoversStep(c *Ctx, rule string) {
 			}
 		}
 		sameHandle := reg.Resolve(stripConv(remaining.Recv)) == reg.Resolve(stripConv(cursorDelete.Recv))
-		if ok && !(reg.Dominates(cursorDelete.Call, remaining.Call) && reg.Dominates(remaining.Call, destDel) && keyed && sameHandle) {
+		var remAt ssa.Instruction = remaining.Call
+		if remSite != nil {
+			remAt = remSite
+			sameHandle = remHandle != nil && reg.Resolve(stripConv(remHandle)) == reg.Resolve(stripConv(cursorDelete.Recv))
+		}
+		if ok && !(reg.Dominates(cursorDelete.Call, remAt) && reg.Dominates(remAt, destDel) && keyed && sameHandle) {
 			ok, detail = false, "the remaining position must be read on the same handle, keyed by this task, after the cursor delete and before the rows are deleted"
 		}
 		if ok {
@@ -1987,4 +2045,102 @@ func asBlockLookup(v ssa.Value) (key ssa.Value, ok bool) {
 		return nil, false
 	}
 	return call.Call.Args[ki], true
+}
+
+// memberLeaves: v reads member k of a struct value that is the result of a repo
+// function (resolved through the region's parameter bindings): the values that
+// member has on each of the function's returns that do not report an error
+// (a constant for a zero value handed back on a not-found arm).
+func memberLeaves(reg *Region, v ssa.Value) ([]ssa.Value, bool) {
+	v = stripNum(v)
+	var base ssa.Value
+	k := -1
+	switch x := v.(type) {
+	case *ssa.Field:
+		base, k = x.X, x.Field
+	case *ssa.UnOp:
+		if fa, ok := x.X.(*ssa.FieldAddr); ok && x.Op == token.MUL {
+			if al, ok := fa.X.(*ssa.Alloc); ok {
+				if p := rootParam(cval{v: al}); p != nil {
+					base, k = p, fa.Field
+				} else if w := cellValue(al); w != nil {
+					base, k = w, fa.Field
+				}
+			}
+		}
+	}
+	if base == nil {
+		return nil, false
+	}
+	base = stripConv(reg.Resolve(stripConv(base)))
+	var call *ssa.Call
+	idx := -1
+	switch x := base.(type) {
+	case *ssa.Extract:
+		call, _ = x.Tuple.(*ssa.Call)
+		idx = x.Index
+	case *ssa.Call:
+		call, idx = x, 0
+	}
+	if call == nil {
+		return nil, false
+	}
+	h := staticCallee(call)
+	if h == nil || h.Blocks == nil || !isRepoFunc(h) {
+		return nil, false
+	}
+	pf := newPathFacts(h)
+	var out []ssa.Value
+	for _, r := range returnsOf(h) {
+		vals := returnValues(r)
+		if idx >= len(vals) {
+			return nil, false
+		}
+		if n := len(vals); n > 1 && isErrorType(vals[n-1].Type()) {
+			last := vals[n-1]
+			if definitelyNonNilError(last, nil) {
+				continue
+			}
+			if st := pf.At(r); st != nil && st.knownNonNil(last) {
+				continue
+			}
+		}
+		rv := vals[idx]
+		if kc, isK := rv.(*ssa.Const); isK {
+			out = append(out, kc) // the zero value
+			continue
+		}
+		fv, ok := fieldValue(cval{rv, []*ssa.Call{call}}, k, false, 0)
+		if ok {
+			out = append(out, unfold(fv).v)
+			continue
+		}
+		// a struct variable filled through its address (Scan(&p.num, …)): the read of that member
+		if u, isU := stripConv(rv).(*ssa.UnOp); isU && u.Op == token.MUL {
+			if al, isAl := u.X.(*ssa.Alloc); isAl {
+				var fa *ssa.FieldAddr
+				for _, ref := range *al.Referrers() {
+					if x, isFA := ref.(*ssa.FieldAddr); isFA && x.Field == k {
+						fa = x
+					}
+				}
+				if fa != nil {
+					// stands for "the content of &al.member": reported as a load of that address
+					for _, ref := range *fa.Referrers() {
+						if ld, isLd := ref.(*ssa.UnOp); isLd && ld.Op == token.MUL {
+							out = append(out, ld)
+							fa = nil
+							break
+						}
+					}
+					if fa != nil {
+						out = append(out, &ssa.UnOp{Op: token.MUL, X: fa})
+					}
+					continue
+				}
+			}
+		}
+		out = append(out, rv)
+	}
+	return out, len(out) > 0
 }
